@@ -19,6 +19,8 @@ structure CRAcct where
   st      : CState   -- Candidate.State
   regH    : Nat
   cancelH : Nat
+  votes   : Int := 0      -- Candidate.Votes
+  gone    : Bool := false -- the candidate record was moved out of State.Candidates when the voting period ended
   deriving DecidableEq, Repr
 
 def CRAcct.available (a : CRAcct) : Int := a.total - a.deposit - a.penalty
@@ -28,14 +30,16 @@ inductive CRTx
   | dep (o : Nat) (v : Int)                       -- output to the candidate's deposit address
   | cancel (o : Nat)                              -- UnregisterCR
   | ret (o : Nat) (inp tinp change out : Int)     -- ReturnCRDepositCoin
+  | vote (o : Nat) (v : Int)                      -- CRC vote output naming the candidate (environment)
   deriving DecidableEq, Repr
 
 def check (s0 : AMap CRAcct) : CRTx → Option String
   | .reg _ _ => none
   | .dep _ _ => none
+  | .vote _ _ => none
   | .cancel o => match get o s0 with
     | none => some "nocr"
-    | some a => if a.st ≠ .pending ∧ a.st ≠ .active then some "state" else none
+    | some a => if a.gone then some "nocr" else if a.st ≠ .pending ∧ a.st ≠ .active then some "state" else none
   | .ret o inp _ change out => match get o s0 with
     | none => some "nocr"
     | some a => if inp - change > a.available ∨ out ≥ a.available then some "overspend" else none
@@ -43,25 +47,48 @@ def check (s0 : AMap CRAcct) : CRTx → Option String
 def step (P : Params) (h : Nat) (a0 : CRAcct) : CRTx → CRAcct → CRAcct
   | .dep _ v, a => { a with total := a.total + v }
   | .cancel _, a => { a with st := .canceled, cancelH := h }
+  | .vote _ v, a => if a0.gone then a else { a with votes := a.votes + v }
   | .ret _ _ tinp change _, a =>
     { a with total := a.total - tinp + change,
-             st := if a0.st = .canceled ∧ h - a0.cancelH > P.lockup ∧
+             st := if ¬ a0.gone ∧ a0.st = .canceled ∧ h - a0.cancelH > P.lockup ∧
                       a0.total - tinp + change - a0.penalty - a0.deposit ≤ P.minFee then .returned else a.st }
   | _, a => a
 
 def applyTx (P : Params) (h : Nat) (s0 s : AMap CRAcct) : CRTx → AMap CRAcct
   | .reg o amount => match get o s with
-    | some _ => s
+    | some a =>
+      -- registering again after the record left the candidate map: DepositInfo is kept, a new lock is added
+      if a.gone then upd o (fun a => { a with total := a.total + amount, deposit := a.deposit + P.minDeposit,
+                                              st := .pending, regH := h, cancelH := 0, votes := 0, gone := false }) s
+      else s
     | none => (o, { total := amount, deposit := P.minDeposit, penalty := 0, st := .pending, regH := h, cancelH := 0 }) :: s
-  | tx@(.dep o _) | tx@(.cancel o) | tx@(.ret o _ _ _ _) => match get o s0 with
+  | tx@(.dep o _) | tx@(.cancel o) | tx@(.ret o _ _ _ _) | tx@(.vote o _) => match get o s0 with
     | none => s
     | some a0 => upd o (step P h a0 tx) s
 
 def endAcct (P : Params) (h : Nat) (a0 a : CRAcct) : CRAcct :=
-  let a1 := if a0.st = .pending ∧ h - a0.regH + 1 ≥ activateDuration then { a with st := .active } else a
-  if a0.st = .canceled ∧ h - a0.cancelH = P.lockup then { a1 with deposit := a1.deposit - P.minDeposit } else a1
+  let a1 := if ¬ a0.gone ∧ a0.st = .pending ∧ h - a0.regH + 1 ≥ activateDuration then { a with st := .active } else a
+  if ¬ a0.gone ∧ a0.st = .canceled ∧ h - a0.cancelH = P.lockup then { a1 with deposit := a1.deposit - P.minDeposit } else a1
 
 def applyTxs (P : Params) (h : Nat) (s0 : AMap CRAcct) (txs : List CRTx) : AMap CRAcct :=
   mapKV (fun k a => match get k s0 with | some a0 => endAcct P h a0 a | none => a) (txs.foldl (applyTx P h s0) s0)
+
+/-! ## end of the voting period (`tryEndVoting` → `updateNextCommitteeMembers` → `processNextMembers`,
+    `processCurrentCandidates`); runs after the block's changes are committed -/
+
+def insDesc (x : Nat × CRAcct) : List (Nat × CRAcct) → List (Nat × CRAcct)
+  | [] => [x]
+  | y :: t => if x.2.votes > y.2.votes then x :: y :: t else y :: insDesc x t
+
+/-- `(accounts, LastVotingStartHeight)` after the block at height `h`; `E` = VotingPeriod, `M` = MemberCount. -/
+def election (P : Params) (E M h lastVS : Nat) (s : AMap CRAcct) : AMap CRAcct × Nat :=
+  if h ≠ lastVS + E then (s, lastVS) else
+  let act := s.filter (fun kv => ¬ kv.2.gone ∧ kv.2.st = .active)
+  if (act.filter (fun kv => kv.2.votes > 0)).length < M then (s, h) else
+  let members := ((act.foldr insDesc []).take M).map (·.1)
+  (mapKV (fun k a =>
+      if a.gone then a else
+      let keep := k ∈ members ∨ (a.st = .canceled ∧ h - a.cancelH ≥ P.lockup) ∨ a.st = .returned
+      { a with deposit := if keep then a.deposit else a.deposit - P.minDeposit, gone := true }) s, lastVS)
 
 end ElaVerif.CRDeposit
